@@ -36,3 +36,31 @@ func monotoneUp(p *ssa.Phi, header *ssa.BasicBlock) bool {
 	}
 	return found
 }
+
+// does the path go through a slice element whose index is beyond the modelled length?
+func beyondLen(path string, lens map[string]int) bool {
+	pp := path
+	for {
+		j := lastIndexByte(pp, '[')
+		if j < 0 {
+			return false
+		}
+		ix := 0
+		for k := j + 1; k < len(pp) && pp[k] >= '0' && pp[k] <= '9'; k++ {
+			ix = ix*10 + int(pp[k]-'0')
+		}
+		if n, ok := lens[pp[:j]]; ok && ix >= n {
+			return true
+		}
+		pp = pp[:j]
+	}
+}
+
+func lastIndexByte(s string, c byte) int {
+	for i := len(s) - 1; i >= 0; i-- {
+		if s[i] == c {
+			return i
+		}
+	}
+	return -1
+}
